@@ -52,6 +52,7 @@ type Shape struct {
 	Start    string    `json:"start"` // "" | "ok" | "trap" | "gset" (start sets g := 9)
 	ID       int       `json:"id"`
 	Priv     bool      `json:"priv"`     // a private (not exported) funcref table with pset(s, funcref), pcall(s); getref() returns ref.func f1
+	FGImp    bool      `json:"fgimp"`    // imports the funcref global fg (from From / env); with Priv: gcall() = call_indirect through that reference
 	FG       bool      `json:"fg"`       // funcref global fg = ref.func f1 and tsetfg(s): table.set s (global.get fg)
 	TailCall bool      `json:"tailcall"` // export trcall (return_call_indirect); needs the tail-call feature    // identity baked into the module: f1 returns ID*10+1, f2 ID*10+2
 	Passive  bool      `json:"passive"`
@@ -148,6 +149,10 @@ func Build(s Shape) []byte {
 	if s.G == "imp" && s.GAlias {
 		g2Idx = m.ImportGlobal(from, "g", gType, s.GMut)
 	}
+	var fgImp uint32
+	if s.FGImp {
+		fgImp = m.ImportGlobal(from, "fg", wasm.ValueTypeFuncref, false)
+	}
 	if s.H == "imp" {
 		hIdx = m.ImportGlobal(from, "h", wb.I32, false)
 		if s.Reexport {
@@ -240,7 +245,7 @@ func Build(s Shape) []byte {
 			wasm.OpcodeEnd,
 			wasm.OpcodeTableSet, wb.U32(0)))
 		if s.FG {
-			fg := m.Global(wasm.ValueTypeFuncref, false, wb.ConstRefFunc(f1), "")
+			fg := m.Global(wasm.ValueTypeFuncref, false, wb.ConstRefFunc(f1), "fg")
 			add("tsetfg", i32, nil, wb.Cat(wb.LocalGet(0), wb.GlobalGet(fg), wasm.OpcodeTableSet, wb.U32(0)))
 		}
 		if s.TailCall {
@@ -259,6 +264,9 @@ func Build(s Shape) []byte {
 		pt := m.Table(wasm.RefTypeFuncref, 4, nil, "")
 		add("pset", []wasm.ValueType{wb.I32, wasm.ValueTypeFuncref}, nil, wb.Cat(wb.LocalGet(0), wb.LocalGet(1), wasm.OpcodeTableSet, wb.U32(pt)))
 		add("pcall", i32, i32, wb.Cat(wb.LocalGet(0), wb.CallIndirect(tRet, pt)))
+		if s.FGImp { // the only thing this instance holds of the exporter is the reference in the imported global
+			add("gcall", nil, i32, wb.Cat(wb.I32Const(3), wb.GlobalGet(fgImp), wasm.OpcodeTableSet, wb.U32(pt), wb.I32Const(3), wb.CallIndirect(tRet, pt)))
+		}
 	}
 	add("getref", nil, []wasm.ValueType{wasm.ValueTypeFuncref}, wb.Cat(wasm.OpcodeRefFunc, wb.U32(f1)))
 	if !hasTab {
